@@ -3,6 +3,7 @@ package c17
 import (
 	"context"
 	"fmt"
+	"github.com/olive-io/bpmn/v2/pkg/event"
 	"sort"
 	"sync"
 	"sync/atomic"
@@ -45,6 +46,11 @@ type descriptor struct {
 	// (bpmn.WithLocator); while it runs, further instances are created on the
 	// same locator (and dropped again) from another goroutine
 	SharedLoc bool `json:"sharedLoc,omitempty"`
+	// SharedBus: the instance registers with an event source of the caller's
+	// (bpmn.WithEventEgress, an event.FanOut) that other instances of the same
+	// definitions are being created on meanwhile, while events are published
+	// through it: an event reaches instances that are still being wired
+	SharedBus bool `json:"sharedBus,omitempty"`
 }
 
 func stripResults(b *gen.Block) {
@@ -147,6 +153,11 @@ func run(d descriptor) *result {
 		loc = data.NewFlowDataLocator()
 		o.Extra = []bpmn.Option{bpmn.WithLocator(loc)}
 	}
+	var fan *event.FanOut
+	if d.SharedBus {
+		fan = event.NewFanOut()
+		o.Extra = append(o.Extra, bpmn.WithEventEgress(fan))
+	}
 	in, err := drive.New(prog.XML(), o)
 	if err != nil {
 		r.Symptom, r.Detail = "construct", err.Error()
@@ -209,6 +220,14 @@ func run(d descriptor) *result {
 		}
 		for i := 0; i < d.Noise; i++ {
 			loop(func() { in.P.ConsumeEvent(drive.Signal("zz-nobody")) })
+		}
+		if fan != nil {
+			loop(func() { fan.ConsumeEvent(drive.Signal("zz-nobody")) })
+			loop(func() {
+				c2, cancel2 := context.WithCancel(context.Background())
+				_, _ = bpmn.NewEngine().NewProcess(in.Defs, bpmn.WithContext(c2), bpmn.WithEventEgress(fan))
+				cancel2()
+			})
 		}
 		if loc != nil {
 			loop(func() {
@@ -392,6 +411,7 @@ func TestC17Concurrent(t *testing.T) {
 			Waiters: rapid.IntRange(0, 3).Draw(rt, "waiters"), Noise: rapid.IntRange(0, 3).Draw(rt, "noise"),
 			Perturb: uint64(rapid.IntRange(0, 300).Draw(rt, "perturb")), DeclSeed: rapid.IntRange(0, 50).Draw(rt, "declSeed"),
 			StaleJoin: rapid.SampledFrom([]int{0, 0, 0, 1, 1, 2}).Draw(rt, "staleJoin"), SharedLoc: rapid.IntRange(0, 3).Draw(rt, "sharedLoc") == 0}
+		d.SharedBus = !d.SharedLoc && rapid.IntRange(0, 2).Draw(rt, "sharedBus") == 0
 		for _, v := range gen.IntVars {
 			d.Vars[v] = int64(rapid.IntRange(0, 3).Draw(rt, v))
 		}
